@@ -464,6 +464,16 @@ def run_B(scn: Dict[str, Any], on, plugins=()) -> Dict[str, Any]:
     except Exception as e:
         res["error"] = classify_exception(e)
         raise
+    if scn.get("extra_agent"):
+        # a user-written runner may number its agents as it likes: one more agent, registered by hand under an id
+        # that is not its rank in the agent list (Agent(...), setup(...), Simulator._add_agent - what the stock
+        # runner does for every agent)
+        sim_ = runner.simulator
+        xa = classes["ScriptedAgent"](agent_id=int(scn["extra_agent"]), prng=random.Random(scn["runner_seed"] + 1),
+                                      simulator=sim_, name="XA", logger=logger)
+        xa.setup(settings={"cashAmount": 1000000, "assetVolume": 1000}, accessible_markets_ids=[m.market_id for m in sim_.markets])
+        sim_._add_agent(agent=xa, group_name="XA")
+        mon.probe("agent_registered_under_sparse_id")
     mon.attach(runner.simulator, cfg["simulation"]["sessions"])
     res["phase"] = "run"
     try:
